@@ -48,6 +48,22 @@ unsigned vx_find_right(const M* m) { return gm2calc::detail::find_right_like_smu
 double vx_ml2(const M* m) { return m->get_ml2(1,1); }
 double vx_MSvmL_pole(const M* m) { return m->get_physical().MSvmL; }
 void vx_convert_ml2(M* m) { m->convert_ml2(); }
+double vx_os(const M* m, int k)
+{
+   switch (k) {
+   case 0: return m->get_EL();
+   case 1: return m->get_MW();
+   case 2: return m->get_MZ();
+   case 3: return m->get_MA0();
+   case 4: return m->get_BMu();
+   case 5: return m->get_MM();
+   case 6: return m->get_MT();
+   case 7: return m->get_Ye(1,1);
+   case 8: return m->get_Yu(2,2);
+   default: return m->get_TB();
+   }
+}
+void vx_convert_sm_part(M* m) { m->convert_gauge_couplings(); m->convert_BMu(); m->convert_vev(); m->convert_yukawa_couplings_treelevel(); }
 void vx_quiet(M* m) { m->verbose_output = false; }
 void vx_calculate_MSm(M* m) { m->calculate_MSm(); }
 void vx_calculate_chi_cha(M* m) { m->calculate_MChi(); m->calculate_MCha(); }
